@@ -32,6 +32,22 @@ hook files and the uncompiled `transport/s2n-quic/` removed) for these tokens:
   `ProtocolCodec::UnsignedVarint(..)` (not match arms) with the argument text, i.e. which frame
   limit each protocol configures.
 
+  PANIC-PATH sites (separate table `panic_sites`, every file): places where the crate itself can
+  panic on a value, i.e. where "cannot happen" is an unchecked claim about a value that may have
+  been DECODED FROM REMOTE BYTES one step earlier
+   30  expect         `.expect(`
+   31  unwrap         `.unwrap()`
+   32  unreachable    `unreachable!(`
+   33  panic          `panic!(`
+   34  todo           `unimplemented!(` / `todo!(`
+   35  assert         `assert!(` / `assert_eq!(` / `assert_ne!(` (not `debug_assert*`: compiled out of release builds)
+   36  into_maddr_peer  a CALL of the conversion `From<PeerId> for multiaddr::PeerId` (which `expect`s):
+                      `Protocol::P2p(<..>.into())`, `== / != <..>.into()`, `multiaddr::PeerId::from / try_from(`
+  coq/C19/PanicSites.v classifies each (value from the network + the invariant that keeps it safe and
+  the theorem that the producing decoder's accepted set implies it / own state machine / local
+  configuration / encoder) and proves `panic_sites_match`: a new `expect`, or a new place that
+  converts a peer id, breaks ./check C19 until it is classified.
+
 Definitions (`fn name(`) are not sites. Each site is (file, enclosing fn, kind) with duplicates
 kept (a second call in the same function is a new entry); sorted.  Written to
 coq/gen/DecodeSites.v on every check; coq/C19/Sites.v holds the hand-written classification of
@@ -80,7 +96,17 @@ BUFFER_KINDS = [
     (13, "cursor", r"\.\s*(?:split_to|split_off|split_at|advance|truncate|get_[ui]\d+(?:_le)?)\s*\("),
     (14, "slice", r"\[[^\[\]\n;]*\.\.[^\[\]\n;]*\]|\.\s*get(?:_mut)?\s*\([^()\n]*\.\.[^()\n]*\)"),
 ]
-KIND_NAMES = {k: n for k, n, _ in DECODE_KINDS + BUFFER_KINDS}
+PANIC_KINDS = [
+    (30, "expect", r"\.\s*expect\s*\("),
+    (31, "unwrap", r"\.\s*unwrap\s*\(\s*\)"),
+    (32, "unreachable", r"\bunreachable!\s*\("),
+    (33, "panic", r"\bpanic!\s*\("),
+    (34, "todo", r"\b(?:unimplemented|todo)!\s*\("),
+    (35, "assert", r"(?<![\w_])assert(?:_eq|_ne)?!\s*\("),
+    (36, "into_maddr_peer", r"\bP2p\s*\((?:[^()]|\([^()]*\))*\.\s*into\s*\(\s*\)\s*\)|[!=]=\s*[\w.]+\.\s*into\s*\(\s*\)|"
+                            r"\bmultiaddr::PeerId::(?:from|try_from)\s*\("),
+]
+KIND_NAMES = {k: n for k, n, _ in DECODE_KINDS + BUFFER_KINDS + PANIC_KINDS}
 # a file without decode tokens still handles wire bytes when it implements one of these
 WIRE_FN_RX = r"\bfn\s+(?:poll_read|poll_next|decode|dh)\b"
 CODEC_RX = r"\bProtocolCodec::(Identity|UnsignedVarint)\s*\("
@@ -200,6 +226,20 @@ def arg_text(s, i):
     return "", len(s)
 
 
+def scan_panics(repo):
+    """(file, enclosing fn, kind) of every panic-path token, sorted, with source lines."""
+    sites, lines = [], {}
+    for rel in source_files(repo):
+        s, orig = clean(repo, rel)
+        for kind, _, rx in PANIC_KINDS:
+            for m in re.finditer(rx, s):
+                fn = enclosing_fn(s, m.start()) or "-"
+                ln = s.count("\n", 0, m.start()) + 1
+                sites.append((rel, fn, kind))
+                lines.setdefault((rel, fn, kind), []).append((ln, orig.split("\n")[ln - 1].strip()))
+    return sorted(sites), lines
+
+
 def scan(repo):
     sites, codecs, lines = [], [], {}
     for rel in source_files(repo):
@@ -299,6 +339,7 @@ def coq_str(x):
 
 def generate(repo):
     sites, codecs, _ = scan(repo)
+    panics, _ = scan_panics(repo)
     out = [
         "(* GENERATED by tools/gen_c19_sites.py from the Rust source on every check. Do not edit.",
         "   sites: every non-test place where bytes are parsed, sliced or size an allocation",
@@ -314,6 +355,12 @@ def generate(repo):
         "",
         "Definition codecs : list (string * string * string) :=",
         "  [" + ";\n   ".join("(%s, %s, %s)" % (coq_str(f), coq_str(g), coq_str(c)) for f, g, c in codecs) + "].",
+        "",
+        "(* every non-test place where the crate can panic on a value (expect / unwrap / unreachable! /",
+        "   panic! / todo! / assert!) or calls the panicking conversion of a peer id into the multiaddr",
+        "   crate's type (kind 36) *)",
+        "Definition panic_sites : list (string * string * N) :=",
+        "  [" + ";\n   ".join("(%s, %s, %d)" % (coq_str(f), coq_str(g), k) for f, g, k in panics) + "].",
         "",
         "(* defaults of third-party parsers (vendored source of the version in Cargo.lock) *)",
     ]
@@ -336,7 +383,9 @@ def generate(repo):
         missing.append(("C19_DECODE_SITES", "src", "no decode site found"))
     if not codecs:
         missing.append(("C19_CODEC_SITES", "src", "no codec site found"))
-    return {"C19_DECODE_SITES": len(sites), "C19_CODEC_SITES": len(codecs)}, missing
+    if not panics:
+        missing.append(("C19_PANIC_SITES", "src", "no panic-path site found"))
+    return {"C19_DECODE_SITES": len(sites), "C19_CODEC_SITES": len(codecs), "C19_PANIC_SITES": len(panics)}, missing
 
 
 CLASS_TEXT = {
@@ -400,9 +449,67 @@ def skeleton(repo):
     return "\n".join(out)
 
 
+PANIC_V = os.path.join(HERE, "..", "coq", "C19", "PanicSites.v")
+PCLS_TEXT = {
+    "PV": "value that may come from the network: safe by the invariant",
+    "PS": "own state machine / bookkeeping invariant",
+    "PL": "local configuration, key or constant",
+    "PE": "encoder into a growable buffer",
+    "PT": "checked earlier by a third-party validator",
+}
+
+
+def panic_classification():
+    if not os.path.exists(PANIC_V):
+        return []
+    txt = open(PANIC_V).read()
+    rx = r'\(\(\s*"([^"]*)"\s*,\s*"([^"]*)"\s*,\s*(\d+)\s*\)\s*,\s*(P\w+)\s*,\s*(\d+)\s*,\s*(\d+)\s*\)\s*;?\s*(?:\(\*(.*?)\*\))?'
+    return [(m.group(1), m.group(2), int(m.group(3)), m.group(4), int(m.group(5)), int(m.group(6)), (m.group(7) or "").strip())
+            for m in re.finditer(rx, txt)]
+
+
+def panic_table(repo):
+    sites, lines = scan_panics(repo)
+    pool = {}
+    for f, g, k, c, inv, hk, note in panic_classification():
+        pool.setdefault((f, g, k), []).append((c, inv, hk, note))
+    used = {}
+    out = ["| file | function | token | line | class | invariant | harness kind | note |", "|---|---|---|---|---|---|---|---|"]
+    for s in sites:
+        i = used.get(s, 0)
+        used[s] = i + 1
+        e = pool.get(s, [])
+        c, inv, hk, note = e[i] if i < len(e) else ("?", 0, 0, "NOT CLASSIFIED")
+        ln = lines[s][i][0] if i < len(lines[s]) else 0
+        out.append("| %s | %s | %s | %d | %s | %s | %s | %s |" % (
+            s[0], s[1], KIND_NAMES[s[2]], ln, PCLS_TEXT.get(c, c), inv if inv else "-", hk if hk else "-", note))
+    return "\n".join(out)
+
+
+def panic_skeleton(repo):
+    sites, lines = scan_panics(repo)
+    have = {}
+    for f, g, k, _, _, _, _ in panic_classification():
+        have[(f, g, k)] = have.get((f, g, k), 0) + 1
+    out, seen = [], {}
+    for s in sites:
+        i = seen.get(s, 0)
+        seen[s] = i + 1
+        if i < have.get(s, 0):
+            continue
+        ln, text = lines[s][i]
+        out.append('   ((%s, %s, %d), PS, 0, 0); (* %s: %d: %s *)' % (coq_str(s[0]), coq_str(s[1]), s[2], KIND_NAMES[s[2]], ln,
+                                                              text.replace("*)", "* )").replace("(*", "( *")[:100]))
+    return "\n".join(out)
+
+
 if __name__ == "__main__":
     repo = os.environ.get("VERIF_REPO", "/repo")
-    if "--table" in sys.argv:
+    if "--panic-table" in sys.argv:
+        print(panic_table(repo))
+    elif "--panic-skeleton" in sys.argv:
+        print(panic_skeleton(repo))
+    elif "--table" in sys.argv:
         print(table(repo))
     elif "--skeleton" in sys.argv:
         print(skeleton(repo))
